@@ -28,6 +28,7 @@ def main():
     ap.add_argument("--reverse", action="store_true", help="apply the patch in reverse (e.g. undo a fix commit)")
     ap.add_argument("--skip-suite", action="store_true")
     ap.add_argument("--keep", action="store_true")
+    ap.add_argument("--demo", default=None, help="demonstration program: must fail on the mutant and pass on /repo")
     a = ap.parse_intermixed_args()
 
     scratch = tempfile.mkdtemp(prefix="eqlmc_mut_", dir="/tmp")
@@ -58,6 +59,14 @@ def main():
                 return 2
             suite = f"{m.group(1) if m else 0} passed, {f.group(1) if f else 0} failed"
         print(f"mutant={name} suite: {suite}  (baseline: 70 passed, 2 failed)")
+        if a.demo:
+            d1 = run(["/venv/bin/python", os.path.abspath(a.demo)], cwd=scratch, env=env, timeout=600)
+            env0 = dict(os.environ, PYTHONPATH="/repo/src", PYTHONHASHSEED="0")
+            d0 = run(["/venv/bin/python", os.path.abspath(a.demo)], cwd="/tmp", env=env0, timeout=600)
+            print(f"  demo: on mutant rc={d1.returncode} ({'fails' if d1.returncode else 'PASSES?!'}), "
+                  f"on /repo rc={d0.returncode} ({'passes' if d0.returncode == 0 else 'FAILS?!'})")
+            if d1.returncode:
+                print("      " + (d1.stderr.strip().splitlines() or d1.stdout.strip().splitlines() or ["?"])[-1][:200])
         env2 = dict(os.environ, EQLMC_REPO=scratch, PYTHONHASHSEED="0")
         env2.pop("PYTHONPATH", None)
         for pid in a.props:
@@ -66,7 +75,7 @@ def main():
             viol = [l for l in p.stdout.splitlines() if l.startswith("VIOLATION")]
             sigs = [l.strip() for l in p.stdout.splitlines() if l.strip().startswith("signature=")]
             last = p.stdout.strip().splitlines()[-1] if p.stdout.strip() else p.stderr[-300:]
-            status = "DETECTED" if (p.returncode == 1 and viol) else ("HARNESS-ERROR" if p.returncode not in (0, 1) else "MISSED")
+            status = "DETECTED" if (p.returncode == 1 and viol) else ("HARNESS-ERROR" if p.returncode != 0 else "MISSED")
             print(f"  {pid}: {status} rc={p.returncode} violations_lines={len(viol)} {'; '.join(sigs[:4])}")
             print(f"      {last}")
             if status == "HARNESS-ERROR":
